@@ -100,6 +100,31 @@ def run(ctx, configs=None):
         ctx.ob("C04.sole-writer", ok, "the transport must receive the whole pending buffer with write_all (got %s via %s)" % (term_str(arg)[:80], cname(t["func"])[-30:]),
                fn=b.path, construct="write-arg", where=b.where(bb), sample={"rule": "sole-writer", "arg": term_str(arg)[:80]})
         fsites = roles._transport_sites(r"^std::io::Write::flush$")
+        # the transport handle does not leave the packet layer: no function hands out a reference to the connection's `rw` (a caller
+        # holding it can write bytes that are not packets, or packets that bypass the counter and the pending buffer)
+        for fn_ in prog.non_test_fns():
+            outs = fn_.raw.get("sig_out") or ""
+            own_layer = "packet::PacketConn<" in (fn_.raw.get("impl_self") or "")
+            for bbx, i_, s_ in fn_.stmts():
+                if not (s_["k"] == "assign" and s_["rv"]["k"] == "ref" and s_["rv"].get("mut")):
+                    continue
+                pp = s_["rv"]["place"].get("p", [])
+                if not (pp and isinstance(pp[-1], dict) and pp[-1].get("n") == "rw" and str(pp[-1].get("of") or "").startswith("packet::PacketConn<")):
+                    continue
+                if not own_layer:
+                    # code outside the packet layer (or an accessor of it inlined there) borrows the transport itself
+                    ctx.ob("C04.sole-writer", False, "%s borrows the connection's transport (`rw`) mutably: bytes written through it bypass the framing" % fn_.path,
+                           fn=fn_.path, construct="transport-escapes", where=fn_.where(bbx, i_))
+                    break
+                esc = False
+                for rb_ in fn_.return_blocks():
+                    o = fn_.origin_place({"l": 0, "p": []}, rb_, len(fn_.blocks[rb_]["stmts"]))
+                    if T.find(o, lambda x: T.is_field(x, "rw")) is not None and (outs.startswith("&mut") or "impl " in outs):
+                        esc = True
+                if esc:
+                    ctx.ob("C04.sole-writer", False, "%s hands out a mutable reference to the connection's transport (%s): bytes written through it bypass the framing" % (fn_.path, outs),
+                           fn=fn_.path, construct="transport-escapes", where=fn_.where(bbx, i_))
+                    break
         ctx.ob("C04.sole-writer", len(fsites) == 1 and fsites[0][0].path == fl.path, "transport flush sites: %s" % [(x[0].path) for x in fsites], fn=fl.path, construct="flush-sites")
         # nobody else touches the pending buffer except write (extend) and the terminator (header bytes, truncate)
         touch = set()
@@ -282,6 +307,45 @@ def run(ctx, configs=None):
                 if f2["path"] == "std::io::Write::write" and "packet::PacketConn<" in (t2.get("arg_tys") or [""])[0]:
                     ctx.ob("C04.write-progress", False, "%s calls Write::write on the connection directly: bytes beyond the current packet boundary are silently dropped (use write_all)" % fn_.path,
                            fn=fn_.path, construct="partial-write", where=fn_.where(bbx))
+                elif f2["path"] == "std::io::Write::write" and f2.get("rpath") is None and not re.search(r"^<.* as std::io::Write>::(write|write_all|write_vectored)$", fn_.path):
+                    # a bare `write` on a *generic* writer (`W: Write`): the value encoders and packet writers are generic and are
+                    # instantiated with the connection, whose write accepts only what fits into the current packet.  Only an
+                    # `impl Write` may forward to an inner write (its own caller loops).
+                    # ... unless the count it returns is looked at (a hand-written write loop): the count flows into a comparison / an
+                    # addition somewhere in the function
+                    used = False
+                    for bby in range(fn_.n):
+                        for iy, sy in enumerate(fn_.blocks[bby]["stmts"]):
+                            if sy["k"] == "assign" and sy["rv"]["k"] == "bin" and sy["rv"]["op"] in ("Lt", "Le", "Gt", "Ge", "Eq", "Ne", "Add", "AddWithOverflow", "Sub", "SubWithOverflow"):
+                                o_ = fn_.origin_rvalue(sy["rv"], bby, iy, 0)
+                                if T.find(o_, lambda x: isinstance(x, tuple) and x[0] == "okpayload" and T.find(x, lambda y: isinstance(y, tuple) and y[0] == "call" and y[1].endswith("io::Write::write") and y[3:] == (("site", bbx),) or (isinstance(y, tuple) and y[0] == "call" and y[1].endswith("io::Write::write") and len(y) > 3 and y[3] == bbx)) is not None) is not None:
+                                    used = True
+                        ty = fn_.term(bby)
+                        if ty["k"] == "switch":
+                            o_ = fn_.origin_op(ty["discr"], bby, len(fn_.blocks[bby]["stmts"]))
+                            if T.find(o_, lambda x: isinstance(x, tuple) and x[0] == "okpayload" and T.find(x, lambda y: isinstance(y, tuple) and y[0] == "call" and y[1].endswith("io::Write::write")) is not None) is not None:
+                                used = True
+                    if not used:
+                        ctx.ob("C04.write-progress", False, "%s calls Write::write on a generic writer and drops the count it returns: with the connection behind it, bytes beyond the current packet boundary are silently lost (use write_all)" % fn_.path,
+                               fn=fn_.path, construct="partial-write-generic", where=fn_.where(bbx))
+
+        # ---- what the library itself tells clients about message sizes ---------------------------------------
+        # "a row or value larger than 16 MiB arrives intact" also needs the client to accept it: conformant clients ask
+        # `SELECT @@max_allowed_packet` at connect (the library answers that itself) and refuse any larger incoming message.
+        # Reference through time: the answer of the pinned tree is 64 MiB; a smaller one shrinks what can arrive.
+        ctx.rule("C04.advertised-limit", "the library's own answer to SELECT @@max_allowed_packet is not below the pinned tree's 64 MiB")
+        frun = roles.f_run
+        lim = []
+        for bbx, t2 in frun.calls():
+            if cname(t2["func"]).endswith("iter::once") or t2["func"]["path"].endswith("iter::once"):
+                a = frun.arg_origin(bbx, 0)
+                v = T.const_int(a)
+                if v is not None:
+                    lim.append((v, bbx))
+        for v, bbx in lim:
+            ctx.ob("C04.advertised-limit", v >= 67108864, "the built-in answer to `SELECT @@max_allowed_packet` is %d: clients refuse rows above it (the pinned tree advertises 67108864)" % v,
+                   fn=frun.path, construct="max-allowed-packet", where=frun.where(bbx), sample={"rule": "advertised-limit", "value": v})
+        ctx.floor("C04.advertised-limit", "constant single-cell answers of the command loop", len(lim), 1)
 
         # ---- empty terminator --------------------------------------------------------------------
         wbb = ws[0][1]
